@@ -55,7 +55,13 @@ pub struct FnInfo {
     pub events: &'static [&'static str],
     pub deps: &'static [&'static str],
     pub call: fn(u32) -> Ret,
+    /// gate family only: create the future without polling it
+    pub spawn: Option<fn(u32) -> BoxFut>,
+    /// number of harness-controlled await points in the body
+    pub gates: usize,
 }
+
+pub type BoxFut = Pin<Box<dyn Future<Output = String>>>;
 
 impl FnInfo {
     pub fn pol(&self) -> Pol {
@@ -191,6 +197,43 @@ pub fn block_on<F: Future>(f: F) -> F::Output {
         }
     }
     vsched::machinery_failure("block_on: future stayed pending");
+}
+
+// ---------------------------------------------------------------------------------------------
+// gates: await points inside generated async bodies that only the harness opens (E4)
+// ---------------------------------------------------------------------------------------------
+
+pub static GATE_OPEN: [std::sync::atomic::AtomicBool; 3] =
+    [std::sync::atomic::AtomicBool::new(false), std::sync::atomic::AtomicBool::new(false), std::sync::atomic::AtomicBool::new(false)];
+/// while set, every gate lets pass (an interloper's own body never waits)
+pub static GATE_BYPASS: std::sync::atomic::AtomicBool = std::sync::atomic::AtomicBool::new(true);
+
+pub struct Gate(pub usize);
+impl Future for Gate {
+    type Output = ();
+    fn poll(self: Pin<&mut Self>, _cx: &mut Context<'_>) -> Poll<()> {
+        use std::sync::atomic::Ordering::SeqCst;
+        if GATE_BYPASS.load(SeqCst) || GATE_OPEN[self.0].load(SeqCst) {
+            Poll::Ready(())
+        } else {
+            Poll::Pending
+        }
+    }
+}
+
+pub async fn gated_body(fid: u32, k: u32, gates: usize) -> String {
+    for g in 0..gates {
+        Gate(g).await;
+    }
+    body(fid, k)
+}
+
+pub fn gates_reset() {
+    use std::sync::atomic::Ordering::SeqCst;
+    for g in &GATE_OPEN {
+        g.store(false, SeqCst);
+    }
+    GATE_BYPASS.store(true, SeqCst);
 }
 
 // ---------------------------------------------------------------------------------------------
